@@ -7,16 +7,22 @@
 //             s/S: hex bytes)
 //   sl   - - : run history, save, load into a fresh instance
 //              ->  O <fields> S <lines> H <header ok> R <rc> F <fields after load>
-//   bad  <kind> <arg> : as sl, but the file is damaged first (magic rver app aver parse line)
+//   bad  <kind> <arg> : as sl, but the file is damaged first (magic rver app aver parse line tok)
 //              ->  R <rc> F <fields | ->
+//              tok <line>:<idx>:<hex|->  replaces (deletes) the idx-th blank-separated token of header line 0/1
+//              line <k>:<msg>            inserts a message at position k; tag `-` = a message without arguments
+//   meta - - : the three dependency keys of every port of the compiled tables, pre-order
+//              ->  M depth,namehex,enabledByHex|-,dependsHex|-,defaultDependsHex|-;…
 //   perm <seed> <max> : load every permutation of the file's messages (all if <= 6
 //              messages, else <max> pseudo-random ones)
-//              ->  N <msgs> P <perms> O <fields> R <rc> F <fields> SAME <1|0> [W <perm> R <rc> F <fields>]
+//              ->  N <msgs> P <perms> R <rc> F <fields> SAME <1|0> [W <perm> R <rc> F <fields>]
 // The descriptor token is for the model and the oracle only.
 // Canonical forms: fields `addr=value` sorted, of enabled sub-trees only; lines
 // `addr:value` / `addr:[v;v;…]` sorted, obtained by scanning the file text with the
 // library's own scanner; values i<dec> c<dec> f<bits> T F S<hex> s<hex>; an enumeration
-// symbol is printed as its index.
+// symbol is printed as its index; an array line is shown with all elements of the array (the
+// elements the file leaves out, because they equal the default, are taken from the saved object:
+// the property does not say how much of an array a line spells out).
 #include "common.h"
 #include <rtosc/rtosc.h>
 #include <rtosc/ports.h>
@@ -26,6 +32,7 @@
 #include <rtosc/arg-val.h>
 #include <algorithm>
 #include <climits>
+#include <map>
 #include <memory>
 #include <set>
 #include "save_apps.inc"
@@ -72,6 +79,7 @@ static bool build_msg(const HMsg &m, char *buf, size_t n, rtosc_arg_val_t *av, s
         case 'c': av->val.i = (int32_t)strtol(m.payload.c_str(), NULL, 10); return rtosc_message(buf, n, m.addr.c_str(), "c", av->val.i) != 0;
         case 'f': { uint32_t b = (uint32_t)strtoul(m.payload.c_str(), NULL, 16); float f; memcpy(&f, &b, 4); av->val.f = f;
                     return rtosc_message(buf, n, m.addr.c_str(), "f", f) != 0; }
+        case '-': return rtosc_message(buf, n, m.addr.c_str(), "") != 0;
         case 'T': av->val.T = 1; return rtosc_message(buf, n, m.addr.c_str(), "T") != 0;
         case 'F': av->val.T = 0; return rtosc_message(buf, n, m.addr.c_str(), "F") != 0;
         case 's': case 'S': {
@@ -114,6 +122,41 @@ static std::string canon_val(const rtosc_arg_val_t *av) {
     return std::string("?") + av->type;
 }
 
+// the port of an address, matched component by component (Ports::apropos is content with a port whose name
+// merely starts with the path)
+static const rtosc::Port *find_port(const rtosc::Ports *tbl, const char *path) {
+    while(*path == '/') ++path;
+    if(!tbl || !*path) return nullptr;
+    for(const rtosc::Port &p : *tbl) {
+        const char *end = nullptr;
+        if(strchr(p.name, '/')) {
+            if(rtosc_match_path(p.name, path, &end)) {
+                if(p.ports && *end) return find_port(p.ports, end);
+                return &p;
+            }
+        } else {
+            size_t len = strlen(path);
+            if(rtosc_match_path(p.name, path, nullptr) || (!strncmp(p.name, path, len) && p.name[len] == '#'))
+                return &p;
+        }
+    }
+    return nullptr;
+}
+
+static void dump_meta(const rtosc::Ports *tbl, int depth, std::vector<std::string> &out) {
+    if(!tbl) return;
+    for(const rtosc::Port &p : *tbl) {
+        std::string e = std::to_string(depth) + "," + hexs(p.name);
+        for(const char *k : {"enabled by", "depends", "default depends"}) {
+            const char *v = p.meta()[k];
+            e += ",";
+            e += v ? (*v ? hexs(v) : std::string()) : std::string("-");
+        }
+        out.push_back(e);
+        dump_meta(p.ports, depth + 1, out);
+    }
+}
+
 struct Scanned { bool ok; std::vector<std::string> chunks; std::vector<std::string> lines; };
 
 // split the body (text behind the two header lines) into messages with the library's
@@ -135,7 +178,7 @@ static Scanned scan_body(const char *body, const rtosc::Ports *meta_of) {
             // an enumeration symbol and its index denote the same value: print the index
             // (the property does not say which spelling the file uses)
             if(meta_of) {
-                const rtosc::Port *port = meta_of->apropos(adr.data());
+                const rtosc::Port *port = find_port(meta_of, adr.data());
                 if(port) for(int k = 0; k < nargs; ++k)
                     if(av[k].type == 'S') {
                         int key = rtosc::enum_key(port->meta(), av[k].val.s);
@@ -217,8 +260,35 @@ static std::string step(const std::string &line) {
     std::string header = text.substr(0, hl), body = text.substr(hl);
     Scanned sc = scan_body(body.c_str(), &a->ports());
     if(mode == "txt") return "TXT " + hex((const unsigned char *)text.data(), text.size());   // debugging aid
+    if(mode == "meta") {
+        std::vector<std::string> m;
+        dump_meta(&a->ports(), 0, m);
+        std::string o;
+        for(size_t i = 0; i < m.size(); ++i) { if(i) o += ";"; o += m[i]; }
+        return "M " + o;
+    }
     if(mode == "sl") {
         std::vector<std::string> ls = sc.lines;
+        {   // show every array line with all elements of the array
+            std::vector<std::string> fv;
+            a->dump(fv);
+            std::map<std::string, std::string> cur;
+            for(const std::string &f : fv) { size_t e = f.find('='); cur[f.substr(0, e)] = f.substr(e + 1); }
+            for(std::string &l : ls) {
+                if(l.empty() || l.back() != ']') continue;
+                size_t c = l.find(":[");
+                if(c == std::string::npos) continue;
+                std::string base = l.substr(0, c), body = l.substr(c + 2, l.size() - c - 3);
+                size_t n = body.empty() ? 0 : (size_t)std::count(body.begin(), body.end(), ';') + 1;
+                for(;; ++n) {
+                    auto it = cur.find(base + std::to_string(n));
+                    if(it == cur.end()) break;
+                    if(!body.empty()) body += ";";
+                    body += it->second;
+                }
+                l = base + ":[" + body + "]";
+            }
+        }
         std::sort(ls.begin(), ls.end());
         unsigned a1, a2, a3; int n1 = 0;
         char exp2[128];
@@ -236,6 +306,23 @@ static std::string step(const std::string &line) {
         else if(kind == "rver") { size_t p = t2.find(" v"); size_t e = t2.find(' ', p + 1); t2.replace(p, e - p, " v" + w[5]); }
         else if(kind == "app") { t2 = header.substr(0, header.find('\n') + 1) + "% " + w[5] + " v1.2.3\n" + body; }
         else if(kind == "aver") { t2 = header.substr(0, header.find('\n') + 1) + "% " + a->name() + " v" + w[5] + "\n" + body; }
+        else if(kind == "tok") {
+            std::vector<std::string> p = split(w[5], ':');
+            if(p.size() != 3) return "bad-op";
+            size_t ln = (size_t)atol(p[0].c_str()), idx = (size_t)atol(p[1].c_str());
+            std::vector<std::string> hl = split(header, '\n');      // two lines and an empty rest
+            if(ln >= hl.size()) return "bad-op";
+            std::vector<std::string> tk = split(hl[ln], ' ');
+            if(idx >= tk.size()) return "bad-op";
+            if(p[2] == "-") tk.erase(tk.begin() + idx);
+            else { bytes b; if(!unhex(p[2], b)) return "bad-op"; tk[idx].assign((const char *)b.data(), b.size()); }
+            std::string nl;
+            for(size_t i = 0; i < tk.size(); ++i) { if(i) nl += " "; nl += tk[i]; }
+            hl[ln] = nl;
+            t2.clear();
+            for(size_t i = 0; i < hl.size(); ++i) { if(i) t2 += "\n"; t2 += hl[i]; }
+            t2 += body;
+        }
         else if(kind == "parse" || kind == "line") {
             std::string ins;
             size_t k;
@@ -249,7 +336,7 @@ static std::string step(const std::string &line) {
                 rtosc_arg_val_t av; std::string st;
                 if(!build_msg(one[0], buf, sizeof buf, &av, st)) return "bad-op";
                 char pr[4096];
-                rtosc_print_message(one[0].addr.c_str(), &av, 1, pr, sizeof pr, NULL, 0);
+                rtosc_print_message(one[0].addr.c_str(), &av, one[0].tag == '-' ? 0 : 1, pr, sizeof pr, NULL, 0);
                 ins = pr;
                 while(!ins.empty() && (ins.back() == '\n' || ins.back() == ' ')) ins.pop_back();
             }
@@ -298,7 +385,7 @@ static std::string step(const std::string &line) {
                 if(!try_perm(p)) same = false;
             }
         }
-        return "N " + std::to_string(n) + " P " + std::to_string(count) + " O " + O + " R " + rc_str(rc0) + " F " + F0
+        return "N " + std::to_string(n) + " P " + std::to_string(count) + " R " + rc_str(rc0) + " F " + F0
                + " SAME " + (same ? "1" : "0") + wit;
     }
     return "bad-op";
